@@ -12,7 +12,7 @@
    props/C05.v, C11.v); add_local_input / advance_frame / arriving inputs / gossip in ANY interleaving.
    Predictors: any function with predict (predict x) = predict x and predict 0 = 0 - both shipped
    predictors (C01_predictors_qualify); see DESIGN.md for what happens without idempotence. *)
-From GGRS Require Import Base Consts Queue QueueProofs Sync P2P Session SessionProofs SessionSparse SessionProgress SessionSparse2 SessionTimeline SessionTimelineSparse.
+From GGRS Require Import Base Consts Queue QueueProofs Sync P2P Session SessionProofs SessionSparse SessionProgress SessionSparse2 SessionTimeline SessionTimelineSparse SessionSystem.
 Open Scope Z_scope.
 
 (* After ANY run inside the space, however predictions, mispredictions, rollbacks, stalls at the
@@ -93,6 +93,74 @@ Proof.
   exists gA, gB, gsA, gsB. split; [exact ExA|]. split; [exact ExB|]. split; [exact HQA|]. split; [exact HQB|].
   intros HtA HtB h f HhA HhB HfA HcA' HfB HcB'.
   rewrite (HvA truth HtA h f HhA HfA HcA'), (HvB truth HtB h f HhB HfB HcB'). reflexivity.
+Qed.
+
+(* What leaves a session and what it does with what arrives (both saving modes).  After ANY run inside the space:
+   every round of inputs handed to the remote players ([all_sends outs]: one entry per send_input call, a map
+   handle -> (frame, value)) is a frame f together with, for EVERY local player, exactly the input the session
+   holds for (f, that player) - the input its own game simulates frame f with (first conjunct: the input the
+   player submitted, shifted by the input delay, the default input before the delay has elapsed:
+   C01_held_inputs_step); every input (player, frame, value) that arrived is held as that player's input for that
+   frame; and conversely every input held for a remote player arrived with an operation carrying that frame and
+   value - nothing is made up, relabelled, or taken from a prediction. *)
+Theorem C01_sent_inputs_are_the_simulated_inputs :
+  forall (predict : Z -> Z), (forall x, predict (predict x) = predict x) -> predict 0 = 0 ->
+  forall (sparse : bool) (ops : list sop) (n w d : Z) (kinds : list pkind) (eps : list (list Z)) (nspec : nat) (p : p2p) (outs : list (pout * apires)),
+  1 <= w -> 0 <= d -> w + d + 3 <= INPUT_QUEUE_LENGTH -> 0 < n -> Z.of_nat (length kinds) = n -> players_only kinds ->
+  srun_in predict (session_start n w sparse d kinds eps nspec) ops = Ok (p, outs) ->
+  exists g gs, exec_outs w (game0 w) outs = Some g /\ QSg sparse w d p gs /\ gframe g = s_current (ps_sync p) /\
+    (forall h hist low f, nth_error gs h = Some (hist, low) ->
+       0 <= f <= s_last_confirmed (ps_sync p) -> f < s_current (ps_sync p) ->
+       f < hlen hist /\ gvalL (g_hist g) f h = hval hist f) /\
+    rounds_ok (local_handles p) gs (all_sends outs) /\
+    (forall pl f v, In (SRemote pl f v) ops ->
+      exists gh, nth_error gs (Z.to_nat pl) = Some gh /\ 0 <= f < hlen (fst gh) /\ hval (fst gh) f = v) /\
+    (forall pl e gh f, 0 <= pl -> nth_error kinds (Z.to_nat pl) = Some (KRemote e) ->
+      nth_error gs (Z.to_nat pl) = Some gh -> 0 <= f < hlen (fst gh) -> In (SRemote pl f (hval (fst gh) f)) ops) /\
+    ps_kinds p = kinds.
+Proof. exact sends_and_receipts_any. Qed.
+
+(* Two peers, no hypothesis about what they hold: A owns player h, B sees h as a remote player; each runs ANY
+   operation sequence of the space, with its own window, delay, saving mode and interleaving.  The one assumption
+   is the link's integrity contract [delivered_was_sent]: every input of h that arrives at B (an SRemote
+   operation: frame and value) was handed to the network by A in some round (loss, duplication, delay and
+   reordering of packets are absorbed below this level: the endpoint delivers each frame once, in order -
+   props/C05.v; the codec returns what was encoded - props/C14.v).  Then A's game and B's game used the same input
+   for h at every frame that both have confirmed and simulated.  With every player owned by somebody, the games
+   of all peers agree on every mutually confirmed frame. *)
+Theorem C01_two_sessions_agree :
+  forall (predict : Z -> Z), (forall x, predict (predict x) = predict x) -> predict 0 = 0 ->
+  forall (sparseA sparseB : bool) (opsA opsB : list sop) (n wA wB dA dB : Z) (kindsA kindsB : list pkind)
+         (epsA epsB : list (list Z)) (nspecA nspecB : nat) (pA pB : p2p) (outsA outsB : list (pout * apires)),
+  1 <= wA -> 0 <= dA -> wA + dA + 3 <= INPUT_QUEUE_LENGTH -> 1 <= wB -> 0 <= dB -> wB + dB + 3 <= INPUT_QUEUE_LENGTH ->
+  0 < n -> Z.of_nat (length kindsA) = n -> Z.of_nat (length kindsB) = n -> players_only kindsA -> players_only kindsB ->
+  srun_in predict (session_start n wA sparseA dA kindsA epsA nspecA) opsA = Ok (pA, outsA) ->
+  srun_in predict (session_start n wB sparseB dB kindsB epsB nspecB) opsB = Ok (pB, outsB) ->
+  exists gA gB, exec_outs wA (game0 wA) outsA = Some gA /\ exec_outs wB (game0 wB) outsB = Some gB /\
+    forall h e, 0 <= h -> nth_error kindsA (Z.to_nat h) = Some KLocal -> nth_error kindsB (Z.to_nat h) = Some (KRemote e) ->
+      delivered_was_sent h outsA opsB ->
+      forall f, 0 <= f <= s_last_confirmed (ps_sync pA) -> f < s_current (ps_sync pA) ->
+                0 <= f <= s_last_confirmed (ps_sync pB) -> f < s_current (ps_sync pB) ->
+        gvalL (g_hist gA) f (Z.to_nat h) = gvalL (g_hist gB) f (Z.to_nat h).
+Proof. exact two_sessions_agree. Qed.
+
+(* non-vacuity: peer A (player 0 local, input delay 1) and peer B (player 0 remote); B receives exactly what A's
+   rounds carry (B saves sparsely, so its confirmed frame lags: 0 against A's 1); both simulated frames 0 and 1
+   with A's delayed inputs 0 (the delay), 5 *)
+Definition c01_sysA : list sop := [SLocal 0 5; SAdvance; SRemote 1 0 3; SLocal 0 6; SAdvance; SRemote 1 1 3; SLocal 0 7; SAdvance].
+Definition c01_sysB : list sop := [SLocal 1 3; SAdvance; SRemote 0 0 0; SRemote 0 1 5; SLocal 1 3; SAdvance; SRemote 0 2 6; SLocal 1 3; SAdvance].
+Example C01_system_demo :
+  exists pA outsA gA pB outsB gB,
+    srun_in (fun x => x) (session_start 2 3 false 1 [KLocal; KRemote 0] [[1]] 0) c01_sysA = Ok (pA, outsA) /\
+    srun_in (fun x => x) (session_start 2 3 true 0 [KRemote 0; KLocal] [[0]] 0) c01_sysB = Ok (pB, outsB) /\
+    exec_outs 3 (game0 3) outsA = Some gA /\ exec_outs 3 (game0 3) outsB = Some gB /\
+    map (fun m => assoc_get m 0) (all_sends outsA) = [Some (mkpi 0 0); Some (mkpi 1 5); Some (mkpi 2 6); Some (mkpi 3 7)] /\
+    s_last_confirmed (ps_sync pA) = 1 /\ s_last_confirmed (ps_sync pB) = 0 /\
+    map (fun f => gvalL (g_hist gA) f 0) [0; 1] = [0; 5] /\ map (fun f => gvalL (g_hist gB) f 0) [0; 1] = [0; 5].
+Proof.
+  eexists. eexists. eexists. eexists. eexists. eexists.
+  split; [vm_compute; reflexivity|]. split; [vm_compute; reflexivity|]. split; [vm_compute; reflexivity|]. split; [vm_compute; reflexivity|].
+  split; [vm_compute; reflexivity|]. split; [vm_compute; reflexivity|]. split; [vm_compute; reflexivity|]. split; vm_compute; reflexivity.
 Qed.
 
 (* Remote players in closed form: every confirmed frame f that has been simulated was LAST simulated,
